@@ -166,7 +166,8 @@ def theorems(ctx):
     # and the on-demand compilation of nested dataclasses, over kernel K114b (pack.py / unpack.py, this run)
     ctx.theorems("props/C14_decision.vo", ["C14_source_lazy_test", "C14_source_unresolved_test", "C14_build_follows_source",
                                            "C14_stub_step_follows_source", "C14_source_ondemand_test",
-                                           "C14_deps_step_follows_source", "C14_build_ondemand_follows_source"],
+                                           "C14_deps_step_follows_source", "C14_build_ondemand_follows_source",
+                                           "C14_creation_never_unresolved", "C14_creation_unresolved_raises"],
                  kernels=["K114a", "K114b"])
     ctx.coqchk(["VerifProps.C14_lazy", "VerifProps.C14_speckey", "VerifProps.C14_decision"])      # thorough tier only
 
